@@ -139,7 +139,7 @@ def check(ctx):
     _check_own(ctx)
     from .engine import import_rules
     # a read path that seeks past the end extends the file: the structural preconditions for staying inside the table
-    import_rules(ctx, "c04", {"scan-compensation", "layout-agreement"})
+    import_rules(ctx, "c04", {"scan-compensation", "layout-agreement", "scan-step", "scan-state", "io-positioned"})
     import_rules(ctx, "c07", {"stored-count-wins"})
     import_rules(ctx, "c17", {"slot-walk"})
     # rabuf extends a file when a seek target lies beyond its end: slot ends must be computed from slot starts
